@@ -13,6 +13,7 @@ import (
 	_ "verif/h/checks/c10"
 	_ "verif/h/checks/c11"
 	_ "verif/h/checks/c12"
+	_ "verif/h/checks/c12sim"
 	_ "verif/h/checks/c14"
 	_ "verif/h/checks/c16"
 	_ "verif/h/checks/c17"
